@@ -47,7 +47,13 @@ LEVEL_TEXT = ("Proved in Lean for every history of start/advance/set_progress/di
               "deciders, default_chars_ok proves them for the class defaults of the current source.  start_explicit_max / "
               "start_explicit_frame / restart_unknown_ends_at_step: an explicit start(m) on ANY bar makes max(0, m) the maximum "
               "(0 = length unknown: the bar then ends at the step reached), the guard `max is not None` of start() is read "
-              "from the source (start_guard_read).  The model is tied to the code by regenerated tables (formats, defaults, "
+              "from the source (start_guard_read).  ansi_screen_shows_latest_frame / ansi_screen_after_frame: the writes of a WHOLE "
+              "ANSI history with setters (multi-line formats, set_format to another line count, clear) read on a terminal with "
+              "rows leave the earlier rows followed by exactly the padded lines of the latest writing call, nothing below, the "
+              "cursor on the last of them - proved by induction over the history, given that every frame has as many line "
+              "breaks as the format in use and no CR/ESC (framesFitB) and that the first cursor-up finds blank rows or the top "
+              "of the terminal (firstMoveB); the final rows of that Lean terminal are compared on every ANSI case with the rows "
+              "of the harness's own terminal emulator.  The model is tied to the code by regenerated tables (formats, defaults, "
               "_TIME_FORMATS) and by exhaustive small-scope plus random differential runs comparing every stream write.")
 LEVEL_NOTE = ("Trusted: Lean kernel + propext/Quot.sound/Classical.choice, the hand-written model (sampled by the "
               "correspondence), the virtual clock and the terminal emulator of the harness. Formats with style tags "
@@ -65,7 +71,9 @@ REQUIRED_THEOREMS = ["Clikit.Props.C16." + n for n in (
     "bar_width_current_config", "bar_hyp_decides", "bar_width_current_config_dec", "setter_silent", "run_is_runC", "deciders_without_setters",
     "displayed_line_count_recorded", "set_format_no_residue", "set_format_section_clears_standing_frame",
     "start_guard_read", "start_explicit_max", "start_none_keeps_max", "start_explicit_frame", "finish_without_maximum",
-    "restart_unknown_ends_at_step")]
+    "restart_unknown_ends_at_step",
+    "ansi_screen_shows_latest_frame", "ansi_screen_after_frame", "screen_hyps_decide", "ansi_screen_final_dec",
+    "cursor_up_read_back")]
 RULE = ("exhaustive small scope: every call sequence up to length 4 over a pool of 8 (quick) / 11 (thorough) public "
         "calls with clock advances (start, advance(1) after 0 / 1/64 / 1/4 s [/ 2 s], advance(3) after 1/16 s, "
         "set_progress(max), display, clear, finish, set_message), thorough also lengths 5-6 over a 6-call pool and "
@@ -519,13 +527,30 @@ def model_requests(case):
 
 
 def model_obs(case, answers):
-    return {"events": answers[0]["events"], "hyp": answers[0]["hyp"]}
+    scr = answers[0]["screen"]
+    if scr is not None and scr["fits"] and scr["shown"] is not None and scr["rows"] != scr["shown"]:
+        # Props.C16.ansi_screen_final_dec says this cannot happen; a driver that answers it is not the proved model
+        raise AssertionError("model screen %r is not the latest frame %r" % (scr["rows"], scr["shown"]))
+    return {"events": answers[0]["events"], "hyp": answers[0]["hyp"],
+            "screen": None if scr is None else scr["rows"]}
+
+
+def _screen_rows(case, obs):
+    """the rows of the harness's terminal emulator after all writes of the history (ANSI, not quiet): compared with
+    the rows of the Lean terminal `screenC (Scr.fresh 0 [])` (Props.C16.ansi_screen_shows_latest_frame)"""
+    if _eff(case["kind"]) != "ansi" or case["quiet"]:
+        return None
+    term = _Term(case["columns"])
+    for e in obs["events"]:
+        for w in e["w"]:
+            term.feed(w)
+    return ["".join(r) for r in term.rows]
 
 
 def impl_view(case, obs):
     return {"events": [{"w": e["w"], "progress": e["progress"], "max": e["max"], "err": e["err"],
                         "bar_hyp": e["bar_hyp"]}
-                       for e in obs["events"]], "hyp": obs["hyp"]}
+                       for e in obs["events"]], "hyp": obs["hyp"], "screen": _screen_rows(case, obs)}
 
 
 # --------------------------------------------------------------------------- oracle
